@@ -481,6 +481,15 @@ func (p *parser) newAttrExpr(obj, attr *ast.Node) *ast.Node {
 	})
 }
 
+// newRootlessIndexExpr builds `.[idx]`: the expression starts at its dot.
+func (p *parser) newRootlessIndexExpr(dot Item, lBracket Item, index *ast.Node, rBracket Item) *ast.Node {
+	n := p.newIndexExpr(nil, lBracket, index, rBracket)
+	if n != nil && n.NodeType == ast.TypeIndexExpr {
+		n.IndexExpr().Dot = p.posCache.LnCol(dot.Pos)
+	}
+	return n
+}
+
 func (p *parser) newIndexExpr(obj *ast.Node, lBracket Item, index *ast.Node, rBracket Item) *ast.Node {
 	if index == nil {
 		p.addParseErrf(p.yyParser.lval.item.PositionRange(), "invalid array index is emepty")
